@@ -258,10 +258,10 @@ def run(rep, work, tier, seed):
         for bug, inv in (("fresh_trace", ["TraceInherited"]), ("outermost_logger", ["LoggerRule"]),
                          ("lost_on_format", ["LineSane"])):
             leg_mutant(rep, work, SPEC, f"mutant_{bug}", cfg_text(dict(small, Bug=bug), invariants=INVS), inv)
-    leg_r(rep, work, SPEC, f"conf_{tier}", cfg_text(conf, invariants=INVS), make)
+    leg_r(rep, work, SPEC, f"conf_{tier}", cfg_text(conf, invariants=INVS), make, world=True)
     # a task that outlives the scope it inherited and opens a scope afterwards (4-5 operations), on a narrow alphabet
     late = dict(NTasks=2, N=3, MaxOps=4 if tier == "quick" else 5, Labels=["plain"], Levels=["warning"], Bug="none")
-    leg_r(rep, work, SPEC, f"conf_late_{tier}", cfg_text(late, invariants=INVS), make)
+    leg_r(rep, work, SPEC, f"conf_late_{tier}", cfg_text(late, invariants=INVS), make, world=True)
     rep.assumptions += [
         "a line counts as emitted when a handler attached to the expected logger receives a record whose message "
         "formats without error (record.getMessage()), as any formatting handler would require",
